@@ -4,6 +4,7 @@
         cond := sim <rel> <thr> <rep> | tod <rel> <thr> <rep01> <firstDay> | and cond cond | or cond cond
    init <k> <v> ...
    dur <duration>
+   pause <t>                -> like `dur t; run` but the configured duration is kept (first part of a paused simulation)
    run                      -> rows `row <time> <k>=<v> ...` then `end <simTime> <prevTime> <ruleIter>`
    reset                    -> forget everything
    eval sim|tod ... <prev> <cur> [<startClock>]   -> `T|F <backtrack|none>`
@@ -53,6 +54,13 @@ def showVals (v : Vals) : String :=
 def showEval (r : Bool × Option Int) : String :=
   (if r.1 then "T " else "F ") ++ (match r.2 with | some b => toString b | none => "none")
 
+/-- one `run_sim()` call on the model state kept in `d` with configuration `cfg` -/
+def doRun (d : DState) (cfg : Cfg) : DState × List String :=
+  let (s, rows) := runSim cfg d.simTime d.prevTime d.vals
+  let out := rows.map fun r => s!"row {r.time} {showVals r.vals}"
+  ({ d with simTime := s.simTime, prevTime := s.prevTime, vals := s.vals },
+    out ++ [s!"end {s.simTime} {s.prevTime} {s.ruleIter} rules {" ".intercalate (s.ruleLog.map toString)}"])
+
 def handle (d : DState) (line : String) : DState × List String :=
   match line.trimAscii.toString.splitOn " " |>.filter (· ≠ "") with
   | ["reset"] => ({}, ["ok"])
@@ -82,11 +90,13 @@ def handle (d : DState) (line : String) : DState × List String :=
     match du.toInt? with
     | some du => ({ d with cfg := { d.cfg with duration := du } }, ["ok"])
     | none => (d, ["bad-op"])
-  | ["run"] =>
-    let (s, rows) := runSim d.cfg d.simTime d.prevTime d.vals
-    let out := rows.map fun r => s!"row {r.time} {showVals r.vals}"
-    ({ d with simTime := s.simTime, prevTime := s.prevTime, vals := s.vals },
-      out ++ [s!"end {s.simTime} {s.prevTime} {s.ruleIter} rules {" ".intercalate (s.ruleLog.map toString)}"])
+  | ["run"] => doRun d d.cfg
+  | ["pause", t] =>
+    -- run to the intermediate duration `t` (wn.options.time.duration = t; run_sim()); the model keeps
+    -- (sim_time, _prev_sim_time, element states); the configured duration is restored for the next `run`/`pause`
+    match t.toInt? with
+    | some t => doRun d { d.cfg with duration := t }
+    | none => (d, ["bad-op"])
   | "eval" :: "sim" :: r :: t :: p :: prev :: cur :: _ =>
     match parseRel r, t.toInt?, p.toInt?, prev.toInt?, cur.toInt? with
     | some rel, some t, some p, some prev, some cur => (d, [showEval (evalSimTime ⟨rel, t, p⟩ prev cur)])
